@@ -597,7 +597,12 @@ fn gen_outbound(kind: OutKind, ch: &mut Choices) -> Plan {
                     // exchange that owns the identifier)
                     let pid = if matches!(kind, OutKind::C14 | OutKind::C06) && ch.chance(1, 4) { Some(1 + ch.choose(3) as u16) } else { None };
                     ops.push(AppOp::PubQ2 { len, pid });
-                    ops.push(if ch.chance(1, 3) { AppOp::DropReceipt } else { AppOp::Release });
+                    // (released, dropped, or "released" into a future that is dropped before its first poll)
+                    ops.push(match ch.weighted(&[6, 2, 1]) {
+                        0 => AppOp::Release,
+                        1 => AppOp::DropReceipt,
+                        _ => AppOp::DropRelease,
+                    });
                 }
                 // (a caller-chosen identifier may collide with one that is outstanding: the request is then
                 // refused locally and must leave the other exchange alone)
@@ -656,6 +661,10 @@ fn gen_outbound(kind: OutKind, ch: &mut Choices) -> Plan {
                 2 => {
                     if !role.is_server() && ch.chance(1, 2) {
                         ops.push(AppOp::BadSubscribe { unsub: ch.chance(1, 2) });
+                    } else if ch.chance(1, 3) {
+                        // a QoS 0 publish that carries a packet identifier (a received packet forwarded as it is)
+                        ops.push(AppOp::PubQ0Pid { len: ch.choose(20), pid: 1 + ch.choose(500) as u16 });
+                        ops.push(AppOp::PubQ0 { len: 3 });
                     } else {
                         ops.push(AppOp::BadTopicTooLong { qos: ch.choose(2) as u8 });
                     }
@@ -1738,7 +1747,8 @@ fn gen_c20(ch: &mut Choices) -> Plan {
         0 => {
             // keep-alive on a server: packets on a coarse grid, then silence
             // (values of 6 and 8 s make a wrong factor visible beyond the 2 s of timer-wheel slack)
-            let ka = *ch.pick(&[1u16, 2, 3, 0, 6]);
+            // (and values near the top of the 16-bit range: 1.5 x the value must saturate, not wrap)
+            let ka = *ch.pick(&[1u16, 2, 3, 0, 6, 1, 2, 3, 6, 21_846, 30_000, 43_691, 43_692, 43_693, 65_535]);
             plan.peer.connect.keep_alive = ka;
             if ch.chance(1, 4) {
                 plan.cfg.hs_keepalive = Some(*ch.pick(&[1u16, 2, 3, 6, 8]));
@@ -1955,7 +1965,7 @@ fn gen_c19(ch: &mut Choices) -> Plan {
     };
     let kind = ch.weighted(&[40, 15, 10, 10, 5, 10, 5, 5]);
     let mut connect = plan.peer.connect.clone();
-    connect.keep_alive = *ch.pick(&[60_000u16, 10, 0]);
+    connect.keep_alive = *ch.pick(&[60_000u16, 10, 0, 21_846, 43_692, 65_535]);
     // unusual but legal CONNECT contents; a long user name makes the Remaining Length two bytes long, so
     // that fragmentation can fall inside the fixed header
     match ch.choose(6) {
